@@ -4,7 +4,8 @@ stdin: JSON list of jobs
   {"id", "vars": [variant...], "nullable": bool, "disc": {"mode": "none"|"complete"|"partial", "prop": str,
    "mapping": [[tag, variant index (1-based)], ...]}, "cases": [{"cid", "payload": tagged tree}],
    "positions": ["top", "field", "list"]}
-variant == {"k": "obj", "f": [ma, mb, mc]} (m in abs/opt/req, fields a, b, c, all string typed)
+variant == {"k": "obj", "f": [ma, mb, mc]} (m in abs/opt/req/rnul, fields a, b, c, all string typed; rnul = required
+           and nullable)   optional job key "history": {"vars": [...]} -> see run_history_job (adds "fresh" to the result)
          | {"k": "str"|"int"|"float"|"bool"} | {"k": "list"|"map", "of": "str"|"int"} | {"k": "anymap"}
 stdout: one JSON line per job: {"id", "res": [{"cid", "pos", "out": "ok"|"err", "chosen": int (1-based variant index,
   0 = none of the union's variants could be identified), "ckind": kind of the produced value, "reenc": tagged tree,
@@ -56,18 +57,20 @@ def unstructure_to_dict(x: Any) -> Any:
 
 
 FIELDS = ("a", "b", "c")
-LETTER = {"abs": "X", "opt": "O", "req": "R"}
+LETTER = {"abs": "X", "opt": "O", "req": "R", "rnul": "N"}
 PRIMS = {"str": str, "int": int, "float": float, "bool": bool}
 
 _CLASSES: dict[tuple, type] = {}
 
 
-def obj_class(f: list[str], disc_prop: str | None) -> type:
+def obj_class(f: list[str], disc_prop: str | None, positional: int = 0) -> type:
+    """positional > 0: a NEW class named Var<positional> (history replays need two families of classes with equal
+    names, like the models of two generated clients), otherwise one cached class per shape."""
     key = (tuple(f), disc_prop)
-    c = _CLASSES.get(key)
+    c = _CLASSES.get(key) if not positional else None
     if c is not None:
         return c
-    name = ("K" if disc_prop else "") + "Obj" + "".join(LETTER[m] for m in f)
+    name = f"Var{positional}" if positional else ("K" if disc_prop else "") + "Obj" + "".join(LETTER[m] for m in f)
     req: list[Any] = []
     opt: list[Any] = []
     names = []
@@ -78,20 +81,24 @@ def obj_class(f: list[str], disc_prop: str | None) -> type:
         if m == "req":
             req.append((fld, str))
             names.append(fld)
+        elif m == "rnul":  # required and nullable: `a: str | None` without a default
+            req.append((fld, str | None))
+            names.append(fld)
         elif m == "opt":
             opt.append((fld, str | None, dataclasses.field(default=None)))
             names.append(fld)
     c = dataclasses.make_dataclass(name, req + opt)
     ident = {n: n for n in sorted(names)}
     c.Meta = type("Meta", (), {"key_transform_with_load": dict(ident), "key_transform_with_dump": dict(ident)})
-    _CLASSES[key] = c
+    if not positional:
+        _CLASSES[key] = c
     return c
 
 
-def variant_type(v: dict, disc_prop: str | None) -> Any:
+def variant_type(v: dict, disc_prop: str | None, positional: int = 0) -> Any:
     k = v["k"]
     if k == "obj":
-        return obj_class(v["f"], disc_prop)
+        return obj_class(v["f"], disc_prop, positional)
     if k in PRIMS:
         return PRIMS[k]
     if k == "list":
@@ -103,10 +110,10 @@ def variant_type(v: dict, disc_prop: str | None) -> Any:
     raise ValueError(k)
 
 
-def build_union(job: dict) -> tuple[Any, list[Any]]:
+def build_union(job: dict, positional: bool = False) -> tuple[Any, list[Any]]:
     disc = job.get("disc") or {"mode": "none"}
     prop = disc.get("prop") if disc.get("mode", "none") != "none" else None
-    vts = [variant_type(v, prop) for v in job["vars"]]
+    vts = [variant_type(v, prop, i + 1 if positional else 0) for i, v in enumerate(job["vars"])]
     u: Any = Union[tuple(vts)] if len(vts) > 1 else vts[0]
     if prop:
         mapping = {tag: vts[i - 1] for tag, i in disc["mapping"]}
@@ -187,11 +194,46 @@ def kind_of_value(r: Any, vts: list[Any]) -> tuple[int, str]:
         for i, t in enumerate(vts):
             if type(r) is t:
                 return i + 1, "obj"
-        return 0, "obj"
+        return 0, "foreign:" + type(r).__name__  # a dataclass that is none of THIS union's variant classes
     for name, py in (("bool", bool), ("int", int), ("float", float), ("str", str), ("list", list), ("dict", dict)):
         if type(r) is py:
             return 0, name
     return 0, "other:" + type(r).__name__
+
+
+def _cases(job: dict, u: Any, vts: list[Any]) -> list[dict]:
+    holder = dataclasses.make_dataclass("Holder", [("u", u)])
+    holder.Meta = type("Meta", (), {"key_transform_with_load": {"u": "u"}, "key_transform_with_dump": {"u": "u"}})
+    res = []
+    for c in job["cases"]:
+        payload = from_tree(c["payload"])
+        for pos in job.get("positions", ["top", "field", "list"]):
+            r = run_case(u, vts, holder, payload, pos)
+            r["cid"] = c["cid"]
+            r["pos"] = pos
+            res.append(r)
+    return res
+
+
+def run_history_job(job: dict) -> dict:
+    """job["history"] == {"vars": [...]}: another union U1 with the SAME discriminator (property, values, class names
+    Var1..Varn) but different variant classes is decoded first, through the same converter module, then this union.
+    `fresh` is what the converter does with this union in a fresh process."""
+    fresh_converter()
+    u2, vts2 = build_union(job, positional=True)
+    fresh = _cases(job, u2, vts2)
+    fresh_converter()
+    h = dict(job)
+    h["vars"] = job["history"]["vars"]
+    u1, _ = build_union(h, positional=True)
+    for tag, _i in job["disc"]["mapping"]:
+        for body in ({job["disc"]["prop"]: tag}, {job["disc"]["prop"]: tag, "a": "va", "b": "vb"}):
+            try:
+                structure_from_dict(body, u1)
+            except Exception:  # noqa: BLE001
+                pass
+    u2, vts2 = build_union(job, positional=True)
+    return {"id": job["id"], "res": _cases(job, u2, vts2), "fresh": fresh}
 
 
 def run_case(u: Any, vts: list[Any], holder: type | None, payload: Any, pos: str) -> dict:
@@ -217,24 +259,16 @@ def run_case(u: Any, vts: list[Any], holder: type | None, payload: Any, pos: str
 
 
 def run_job(job: dict) -> dict:
+    if job.get("history"):
+        return run_history_job(job)
+    fresh_converter()
     u, vts = build_union(job)
-    holder = dataclasses.make_dataclass("Holder", [("u", u)])
-    holder.Meta = type("Meta", (), {"key_transform_with_load": {"u": "u"}, "key_transform_with_dump": {"u": "u"}})
-    res = []
-    for c in job["cases"]:
-        payload = from_tree(c["payload"])
-        for pos in job.get("positions", ["top", "field", "list"]):
-            r = run_case(u, vts, holder, payload, pos)
-            r["cid"] = c["cid"]
-            r["pos"] = pos
-            res.append(r)
-    return {"id": job["id"], "res": res}
+    return {"id": job["id"], "res": _cases(job, u, vts)}
 
 
 def main() -> None:
     jobs = json.load(sys.stdin)
-    for n, job in enumerate(jobs):
-        fresh_converter()
+    for job in jobs:
         print(json.dumps(run_job(job)), flush=True)
 
 
